@@ -1,29 +1,5 @@
-/-
-  Ties between the facts regenerated from the Go source (`RV.Facts.Generated`, rewritten by
-  `vh probe` on every run) and the constants / finite tables the model is built from.  Each is
-  closed by kernel evaluation over the *whole* table, so a changed limit or table row in the code
-  breaks a proof obligation deterministically.  (Thresholds are encoded +1, 0 = "never accepted".)
--/
-import RV.Facts.Generated
-import RV.Model.Wire
-import RV.Facts.Expected
-namespace RV.Facts
-open RV
-
-theorem tie_maxPacketLengthConst : Generated.maxPacketLengthConst = maxPacketLength := by decide
-theorem tie_parseMinBuf : Generated.parseMinBuf = minPacketLength + 1 := by decide
-theorem tie_lenFieldMin : Generated.lenFieldMin = minPacketLength + 1 := by decide
-theorem tie_lenFieldMax : Generated.lenFieldMax = maxPacketLength + 1 := by decide
-theorem tie_lenBeyondBuffer : Generated.lenBeyondBuffer = 1 := by decide
-theorem tie_attrLenMin : Generated.attrLenMin = minAttrLength + 1 := by decide
-theorem tie_attrValMax : Generated.attrValMax = maxAttrValue + 1 := by decide
-theorem tie_marshalMax : Generated.marshalMax = maxPacketLength + 1 := by decide
-
-
-/-! C03: the per-code behaviour of `Encode` and `IsAuthenticRequest`, probed for every code 0..255
-    (and out-of-range codes of the Go `int`), equals the model's switch. -/
-theorem tie_encodeClass : Generated.encodeClass = Expected.encodeClass := by decide +kernel
-theorem tie_requestClass : Generated.requestClass = Expected.requestClass := by decide +kernel
-theorem tie_encodeClassOutOfRange : Generated.encodeClassOutOfRange = Expected.encodeClassOutOfRange := by decide +kernel
-
-end RV.Facts
+/- All ties (one module per property, so that a broken tie raises the alarm of its own property only). -/
+import RV.Facts.TieC01
+import RV.Facts.TieC03
+import RV.Facts.TieC06
+import RV.Facts.TieC07
